@@ -30,7 +30,7 @@ REQUIRED = {"xml.well_formed": {"quick": 600, "thorough": 30000}, "testcases.mat
             "counters.match_entries": {"quick": 600, "thorough": 30000}, "problem.entry_names_step_or_hook": {"quick": 300, "thorough": 15000},
             "reporter.never_raises": {"quick": 600, "thorough": 30000},
             "testcases.scenario_whose_cleanup_raised_is_not_reported_passed": {"quick": 30, "thorough": 1500}}
-REQUIRED_SEEN = {"feature_file_name_class": ["dotted"], "captured_output_size": ["beyond_64KiB"], "testcase_status": ["passed", "failed", "error", "hook_error", "skipped", "untested"],
+REQUIRED_SEEN = {"feature_file_name_class": ["dotted"], "row_name_schema": ["{name}"], "captured_output_size": ["beyond_64KiB"], "testcase_status": ["passed", "failed", "error", "hook_error", "skipped", "untested"],
                  "hostile_class_in_report": ["xml_meta", "cdata_end", "c0", "c1", "ansi", "astral", "non_ascii", "format_meta"]}
 NSHARDS = {"quick": 16, "thorough": 16}
 
@@ -205,6 +205,8 @@ def run_case(lab, mon, case, rng, messages, noisy, sample=False):
                 context.config.show_skipped = value
         kw["hook_plugins"].append(flip)
     try:
+        if case.get("row_name_schema"):
+            kw["config_kwargs"] = {"scenario_outline_annotation_schema": case["row_name_schema"]}
         obs = lab.run(case["program"], args=args, reporters=reporters, step_plugins=[printer], messages=messages, **kw)
         W = lambda **k: RB.witness(case, messages={a: b for a, b in list(messages.items())[:3]}, **k)
         if obs.escaped is not None:
@@ -386,6 +388,11 @@ def run(spec, mon):
                                               "message": hostile.text(rng, sep=" ") if rng.random() < 0.7 else ""})
         elif mode == 2 and not case["cfg"]["dry_run"]:
             case = dict(case, cleanup_plan={"register_in": rng.choice(["before_scenario", "before_feature", "after_scenario", "before_rule"])})
+        if i % 6 == 4:
+            # the configured name schema for outline rows; under '{name}' the rows of an outline share one name -- each row is a
+            # scenario and has a test case of its own all the same
+            case = dict(case, row_name_schema=rng.choice(["{name}", "{name}", "{name} <{examples.name}>", "{examples.name}"]))
+            mon.seen("row_name_schema", case["row_name_schema"])
         if i % 6 == 2:
             case = dict(case, flip_show_skipped=rng.choice([True, False]))
             mon.seen("show_skipped_changed_at_runtime", str(case["flip_show_skipped"]))
